@@ -162,11 +162,16 @@ void QNameDatatypeValidator::checkContent( const XMLCh*             const conten
     if ((thisFacetsDefined & DatatypeValidator::FACET_ENUMERATION) != 0 &&
         (getEnumeration() != 0) && context)
     {
+        // an unprefixed name is in the default namespace, if there is one
+        XMLCh  noPrefix[] = { chNull };
+        XMLCh* valuePrefix;
         XMLCh* localName;
         if (colonPos > 0) {
+            valuePrefix = prefix;
             localName = prefix + colonPos + 1;
         }
         else {
+            valuePrefix = noPrefix;
             localName = prefix;
         }
 
@@ -193,12 +198,9 @@ void QNameDatatypeValidator::checkContent( const XMLCh*             const conten
             }
             
             if (XMLString::equals(localName, enumLocalName)) {               
-				if (colonPos < 0)
-					break;
-
-                // now need to see if the prefix URI's are the same                
+                // now need to see if the namespace URI's are the same
                 if (!foundURIId) {                    
-                    normURI = context->getURIForPrefix(prefix);                                       
+                    normURI = context->getURIForPrefix(valuePrefix);
                     foundURIId = true;
                 }
 				if (XMLString::equals(normURI, getEnumeration()->elementAt(i+1)))
